@@ -17,6 +17,11 @@ class Unsupported(Exception):
     pass
 
 
+class UndefinedBehaviour(Exception):
+    """the evaluated expression has undefined behaviour for this input (signed overflow, shift out of range ...)"""
+    pass
+
+
 def width(t):
     t = (t or '').replace('const ', '').replace('volatile ', '').strip()
     if t in ('_Bool', 'bool'):
@@ -54,7 +59,13 @@ BUILTINS = {
 
 
 def _undef(what):
-    raise Unsupported('undefined: ' + what)
+    raise UndefinedBehaviour(what)
+
+
+def _signed_check(v, t, what):
+    w, sg = width(t)
+    if sg and w >= 32 and not (-(1 << (w - 1)) <= v < (1 << (w - 1))):
+        raise UndefinedBehaviour('signed overflow in %s (%d does not fit %s)' % (what, v, t))
 
 
 class Interp:
@@ -63,6 +74,7 @@ class Interp:
         self.facts = facts
         self.call_hook = call_hook
         self.max_steps = max_steps
+        self.mem_stores = []
 
     # ---- expressions
     def ev(self, e, env, members):
@@ -109,6 +121,7 @@ class Interp:
             if op == '!':
                 return 0 if v else 1
             if op == '-':
+                _signed_check(-v, e.get('t'), 'negation')
                 return wrap(-v, e.get('t'))
             if op == '~':
                 return wrap(~v, e.get('t'))
@@ -140,7 +153,10 @@ class Interp:
             r = self.ev(e['r'], env, members)
             if op in ('==', '!=', '<', '<=', '>', '>='):
                 return 1 if {'==': l == r, '!=': l != r, '<': l < r, '<=': l <= r, '>': l > r, '>=': l >= r}[op] else 0
-            return wrap(self.arith(op, l, r, e), e.get('t'))
+            res = self.arith(op, l, r, e)
+            if op in ('+', '-', '*'):
+                _signed_check(res, e.get('t'), op)
+            return wrap(res, e.get('t'))
         if k == 'call':
             name = e.get('cname')
             args = [self.ev(a, env, members) for a in (e.get('args') or [])]
@@ -195,6 +211,10 @@ class Interp:
             return
         if l.get('k') == 'member' and strip(l.get('base')) is not None and strip(l['base']).get('k') == 'this':
             members[l['name']] = v
+            return
+        if (l.get('k') == 'un' and l.get('op') == '*') or l.get('k') == 'sub':
+            # a store through a pointer: memory is not modelled; recorded for the caller
+            self.mem_stores.append((show(l), v))
             return
         raise Unsupported('store to %s' % show(l))
 
